@@ -84,10 +84,12 @@ theorem C03_dvFieldNames (vectors : Bool) (mode : Nat) (b : Batch) :
 
 /-- C03 (content).  For a non-empty batch and a name `n` of the field table the
     segment has a field record `f` for `n`; if `n` is indexed with doc values in
-    the batch, `f.dv` is `docTermMap` of the field's dictionary, whose document
-    numbers are strictly ascending, in range and never carry an empty list, and
-    the terms it records for ANY document number are the specified doc values
-    (ascending, each once; none beyond the batch); otherwise `f.dv = none`.
+    the batch, `f.dv` is `docTermMap` of the field's dictionary with the extra
+    doc values (encoded geo shapes) added, whose document numbers are strictly
+    ascending, in range and never carry an empty list, and the values it records
+    for ANY document number are the specified doc values (the terms ascending,
+    each once, then the document's shape if it has one - also for a document
+    without terms; none beyond the batch); otherwise `f.dv = none`.
     `hC01` / `hsorted` are the statements of `C01_entries` / `C01_termsSorted`. -/
 theorem C03_content (vectors : Bool) (mode : Nat) (b : Batch) (hb : b ≠ [])
     (hC01 : ∀ n t, match lookup t ((buildSeg vectors mode b).dictTerms n) with
@@ -101,10 +103,10 @@ theorem C03_content (vectors : Bool) (mode : Nat) (b : Batch) (hb : b ≠ [])
     ∃ f, (buildSeg vectors mode b).field? n = some f ∧ f.name = n ∧
       (includeDocValues b n = true →
         ∃ terms, f.terms = terms.map (fun t => (t.1, PostRep.general t.2)) ∧
-          f.dv = some (docTermMap b.length terms) ∧
-          ((docTermMap b.length terms).map (·.1)).Pairwise (· < ·) ∧
-          (∀ p ∈ docTermMap b.length terms, p.1 < b.length ∧ p.2 ≠ []) ∧
-          ∀ d, (((docTermMap b.length terms).find? (·.1 = d)).map (·.2)).getD [] =
+          f.dv = some (addShapes b n (docTermMap b.length terms)) ∧
+          ((addShapes b n (docTermMap b.length terms)).map (·.1)).Pairwise (· < ·) ∧
+          (∀ p ∈ addShapes b n (docTermMap b.length terms), p.1 < b.length ∧ p.2 ≠ []) ∧
+          ∀ d, (((addShapes b n (docTermMap b.length terms)).find? (·.1 = d)).map (·.2)).getD [] =
             Spec.docValues vectors b n d) ∧
       (includeDocValues b n = false → f.dv = none) := by
   obtain ⟨f, hf, hfind⟩ := buildSeg_field?_some vectors mode b hb n hn
@@ -112,14 +114,15 @@ theorem C03_content (vectors : Bool) (mode : Nat) (b : Batch) (hb : b ≠ [])
   refine ⟨f, hf, hname, ?_, ?_⟩
   · intro hi
     obtain ⟨terms, ht, hdv, hrec⟩ := h1 ⟨hb, hi⟩
-    exact ⟨terms, ht, hdv, (docTermMap_shape b.length terms).1, (docTermMap_shape b.length terms).2, hrec⟩
+    exact ⟨terms, ht, hdv, (addShapes_shape b n _).1, (addShapes_shape b n _).2, hrec⟩
   · intro hi
     exact h2 (by rintro ⟨_, h⟩; rw [hi] at h; cases h)
 
 /-- C03 (end to end): on a built segment, with any reachable state, a visit of
     `doc` delivers for each listed name (in order, per occurrence) the specified
-    doc values of the document — nothing for names without doc values, unknown
-    names, or documents beyond the batch. -/
+    doc values of the document (terms, then the encoded shape of a geo-shape
+    field) — nothing for names without doc values, unknown names, or documents
+    beyond the batch. -/
 theorem C03_visit_built (vectors : Bool) (mode : Nat) (b : Batch)
     (hC01 : ∀ n t, match lookup t ((buildSeg vectors mode b).dictTerms n) with
       | none => Spec.postings vectors b n t = []
@@ -218,6 +221,41 @@ example : seg1.dvFieldNames = [tagN] ∧ (fieldTable exB).filter (includeDocValu
 
 /-- the doc-value data of `tag` (cf. `C03_content`) -/
 example : (seg1.field? tagN).map (·.dv) = some (some [(0, [x, y]), (2, [w, x, z])]) := by decide +kernel
+
+/-! Geo-shape fields: the encoded shape is one more doc value, after the terms.
+Document 0 has terms and a shape, document 1 only a shape (no terms at all),
+document 2 three instances of the field - shapes `aa`, then `bbcc`, then none:
+the last shape wins -, document 3 has neither and gets no entry.  (The real
+code's answers on this batch: `geo=6869,78,79`, `geo=0102`, `geo=77,7a,bbcc`, `-`.) -/
+
+def geoN : Name := strBytes "geo"
+
+def exG : Batch := [
+  { id := strBytes "a", fields := [idF "a",
+      { name := geoN, dv := true, toks := [tk "y", tk "x"], shape := some [0x68, 0x69] }] },
+  { id := strBytes "b", fields := [idF "b", { name := geoN, dv := true, shape := some [0x01, 0x02] }] },
+  { id := strBytes "c", fields := [{ name := geoN, dv := true, toks := [tk "z"], shape := some [0xaa] }, idF "c",
+      { name := geoN, dv := true, toks := [tk "w"], shape := some [0xbb, 0xcc] },
+      { name := geoN, dv := true, toks := [tk "z"] }] },
+  { id := strBytes "d", fields := [idF "d"] } ]
+
+def segG : Seg := buildSeg false 0 exG
+
+/-- the doc-value data of `geo` in the built segment -/
+theorem exG_dv : (segG.field? geoN).map (·.dv) =
+    some (some [(0, [x, y, [0x68, 0x69]]), (1, [[0x01, 0x02]]), (2, [w, z, [0xbb, 0xcc]])]) := by decide +kernel
+
+/-- visiting it, document by document (4 is beyond the batch), through one state -/
+example : runVisits (fun _ => segG) 2 [geoN] none [(0, 0), (0, 1), (0, 2), (0, 3), (0, 4), (0, 1)] =
+    [ [(geoN, x), (geoN, y), (geoN, [0x68, 0x69])],
+      [(geoN, [0x01, 0x02])],
+      [(geoN, w), (geoN, z), (geoN, [0xbb, 0xcc])],
+      [], [],
+      [(geoN, [0x01, 0x02])] ] := by decide +kernel
+
+/-- … and the specification says the same -/
+example : [0, 1, 2, 3, 4].map (Spec.docValues false exG geoN) =
+    [[x, y, [0x68, 0x69]], [[0x01, 0x02]], [w, z, [0xbb, 0xcc]], [], []] := by decide +kernel
 
 end C03Ex
 
